@@ -514,11 +514,21 @@ def _catalogue(func, depth=0):
                 continue
             if not P.has(func.tu, c['fn']):
                 continue
-            rej = b['succ'][1] if neg else b['succ'][0]
-            if rej is None or not any(ev['k'] == 'return' for ev in func.blocks[rej]['ev']):
-                continue
             H = P.func(func.tu, c['fn'])
             if not any(True for _ in H.calls('imb_set_errno')):
+                continue
+            # which value does the helper return when it rejects?  `return 1 / -1` (an "is invalid" predicate) or `return 0` (an "is valid" one)
+            rvals = set()
+            for hb in H.blocks.values():
+                hg = is_guard_block(hb, func=H)
+                if hg:
+                    rvals.add(cf.evalc(hg[1]) if hg[1] is not None else None)
+            rejects_with_zero = bool(rvals) and rvals <= {0}
+            if rejects_with_zero:
+                rej = b['succ'][0] if neg else b['succ'][1]
+            else:
+                rej = b['succ'][1] if neg else b['succ'][0]
+            if rej is None or not any(ev['k'] == 'return' for ev in func.blocks[rej]['ev']):
                 continue
             psub = {}
             for i, prm in enumerate(H.params):
